@@ -4,5 +4,12 @@ import "fmt"
 
 // runExtraEngine dispatches to the engines that are not the SMT VC engine.
 func runExtraEngine(eng *Engine, spec, prop, tier string, seed int, verif, repo string) ([]*Obligation, map[string]interface{}, error) {
+	props := []string{prop}
+	switch spec {
+	case "effects:entropy":
+		return eng.effectsEntropy(props), nil, nil
+	case "effects:no-recover":
+		return eng.effectsNoRecover(props), nil, nil
+	}
 	return nil, nil, fmt.Errorf("unknown engine %q", spec)
 }
